@@ -159,11 +159,11 @@ theorem C06_error_path_entry (E : ReEnv) (cfg : Serve.Cfg) (e : Serve.Entry) (he
     (w : Serve.World) (sr : Serve.SReq) (c : Nat) (a : Option (List Str)) (tag : String)
     (hc : sr.condPanic = none) (hr : routeTagged E cfg.routing sr.req = (.error c a, tag)) :
     Spec.chainOf E cfg e sr =
-      some (Serve.label .cfilter cfg.cfilters, ⟨.errorWriter, Serve.errorScript c a (Serve.errorMessage E cfg.routing sr.req tag)⟩, {}) ∧
+      some (Serve.label .cfilter cfg.cfilters, ⟨.errorWriter, Serve.errorScript c a (Serve.errMsg E cfg sr c tag)⟩, {}) ∧
     ∀ ev ∈ (Serve.serve E cfg e w sr).log,
       (∃ f ∈ cfg.cfilters, ev.stage = .cfilter f.id) ∨ ev.stage = .errorWriter ∨ ev.stage = .recover := by
   have hch : Spec.chainOf E cfg e sr =
-      some (Serve.label .cfilter cfg.cfilters, ⟨.errorWriter, Serve.errorScript c a (Serve.errorMessage E cfg.routing sr.req tag)⟩, {}) := by
+      some (Serve.label .cfilter cfg.cfilters, ⟨.errorWriter, Serve.errorScript c a (Serve.errMsg E cfg sr c tag)⟩, {}) := by
     rcases he with rfl | rfl <;>
     · simp only [Spec.chainOf, hc, hr]
       rfl
@@ -184,7 +184,7 @@ theorem C06_error_path_entry (E : ReEnv) (cfg : Serve.Cfg) (e : Serve.Entry) (he
 theorem C06_error_path (E : ReEnv) (cfg : Serve.Cfg) (w : Serve.World) (sr : Serve.SReq) (c : Nat) (a : Option (List Str)) (tag : String)
     (hc : sr.condPanic = none) (hr : routeTagged E cfg.routing sr.req = (.error c a, tag)) :
     Spec.chainOf E cfg .dispatch sr =
-      some (Serve.label .cfilter cfg.cfilters, ⟨.errorWriter, Serve.errorScript c a (Serve.errorMessage E cfg.routing sr.req tag)⟩, {}) ∧
+      some (Serve.label .cfilter cfg.cfilters, ⟨.errorWriter, Serve.errorScript c a (Serve.errMsg E cfg sr c tag)⟩, {}) ∧
     ∀ ev ∈ (Serve.serve E cfg .dispatch w sr).log,
       (∃ f ∈ cfg.cfilters, ev.stage = .cfilter f.id) ∨ ev.stage = .errorWriter ∨ ev.stage = .recover :=
   C06_error_path_entry E cfg .dispatch (.inl rfl) w sr c a tag hc hr
